@@ -280,13 +280,17 @@ def array_contract_path(
     )
 
     if cache and can_hash_optimize(optimize.__class__):
-        key = hash_contraction(inputs, output, size_dict, optimize)
         try:
-            path = _PATH_CACHE[key]
-        except KeyError:
-            path = _PATH_CACHE[key] = find_path(
-                inputs, output, size_dict, optimize
-            )
+            key = hash_contraction(inputs, output, size_dict, optimize)
+            try:
+                path = _PATH_CACHE[key]
+            except KeyError:
+                path = _PATH_CACHE[key] = find_path(
+                    inputs, output, size_dict, optimize
+                )
+        except TypeError:
+            # unhashable inputs or path (e.g. given as lists): don't cache
+            path = find_path(inputs, output, size_dict, optimize)
     else:
         path = find_path(inputs, output, size_dict, optimize)
 
